@@ -12,8 +12,8 @@ import (
 	"io"
 	"math/big"
 	"os"
-	"runtime"
 	"regexp"
+	"runtime"
 	"sync"
 	"sync/atomic"
 	"time"
@@ -54,17 +54,17 @@ type Obs struct {
 	CBErrs []string `json:"cb_errs,omitempty"`
 	Masks  uint8    `json:"masks"`
 
-	Fired       bool   `json:"fired"`       // an operation failed (injected, EOF, deadline)
-	FiredModel  int    `json:"fired_model"` // model-level index of the first failed operation
-	FiredSite   string `json:"fired_site,omitempty"`
-	RawOps      int    `json:"raw_ops"`
-	ModelOps    int    `json:"model_ops"`
-	Cancelled   bool   `json:"cancelled,omitempty"`
-	CancelModel int    `json:"cancel_model"`
-	PulseSeen   bool   `json:"pulse_seen,omitempty"`
-	Delivered   int    `json:"delivered"`
-	ClearLen    int    `json:"clear_len"`
-	HeaderOps   []int  `json:"header_ops,omitempty"` // model-level indexes of the reads that fetched a stream header
+	Fired       bool          `json:"fired"`       // an operation failed (injected, EOF, deadline)
+	FiredModel  int           `json:"fired_model"` // model-level index of the first failed operation
+	FiredSite   string        `json:"fired_site,omitempty"`
+	RawOps      int           `json:"raw_ops"`
+	ModelOps    int           `json:"model_ops"`
+	Cancelled   bool          `json:"cancelled,omitempty"`
+	CancelModel int           `json:"cancel_model"`
+	PulseSeen   bool          `json:"pulse_seen,omitempty"`
+	Delivered   int           `json:"delivered"`
+	ClearLen    int           `json:"clear_len"`
+	HeaderOps   []int         `json:"header_ops,omitempty"` // model-level indexes of the reads that fetched a stream header
 	Elapsed     time.Duration `json:"-"`
 }
 
@@ -408,16 +408,29 @@ func Run(sc *Scenario, f Fault, mat *TLSMaterial) Obs {
 	ops := p.Ops()
 	obs.RawOps = len(ops)
 	obs.ModelOps = p.ModelOps()
-	for _, o := range ops {
-		if o.Failed {
-			if o.W {
-				obs.FiredSite = "write:" + Classify(o.Data)
-			} else {
-				obs.FiredSite = "read"
+	// the element class of the first failed operation, taken from the model-level event
+	// (inside the TLS phase the raw bytes are ciphertext)
+	if obs.Fired {
+		n := 0
+		for _, e := range obs.Trace {
+			if e.K != "r" && e.K != "w" {
+				continue
 			}
-			break
+			if n == obs.FiredModel {
+				if e.K == "w" {
+					obs.FiredSite = "write:" + e.Site
+				} else {
+					obs.FiredSite = "read"
+				}
+				break
+			}
+			n++
+		}
+		if obs.FiredSite == "" {
+			obs.FiredSite = "operation"
 		}
 	}
+	_ = ops
 	obs.Cancelled = cancelled.Load()
 	obs.CancelModel = int(cancelModel.Load())
 	if f.Cancel == "blocked" && obs.Cancelled {
